@@ -1,0 +1,33 @@
+//go:build verif
+
+// Contracts for the deductive verifier in /verif (govc); comments only.
+package drbg
+
+//@ pred drbgInv(d) := d != nil && d.sip != nil && d.sip.hsize == 8 && d.sip.halg == 3
+
+//@ func (*HashDrbg).NextBlock(drbg) (res)
+//@   serves C06 C12 C01 C10
+//@   requires drbgInv(drbg)
+//@   modifies drbg.sip.absorbed, drbg.ofb
+//@   ensures [C06:ofb_running_state] drbg.sip.absorbed == cat(old(drbg.sip.absorbed), old(seq(drbg.ofb)))
+//@   ensures [C06:ofb_is_siphash_of_everything_absorbed] seq(drbg.ofb) == HASH(3, drbg.sip.hkey, drbg.sip.absorbed)
+//@   ensures [C12:block_is_copy] len(res) == 8 && seq(res) == seq(drbg.ofb) && fresh(res)
+//@   ensures drbgInv(drbg)
+
+//@ func SeedFromBytes(src) (seed, err)
+//@   serves C06 C12 C10
+//@   ensures err == nil <==> len(src) >= 24
+//@   ensures err == nil ==> seed != nil && fresh(seed) && seq(seed) == sub(seq(src), 0, 24)
+//@   ensures err != nil ==> seed == nil
+
+//@ func NewHashDrbg(seed) (drbg, err)
+//@   serves C06 C12 C10
+//@   requires seed != nil
+//@   ensures [C06:drbg_key_layout] err == nil && drbgInv(drbg) && fresh(drbg) && drbg.sip.hkey == sub(seq(seed), 0, 16) && seq(drbg.ofb) == sub(seq(seed), 16, 24) && len(drbg.sip.absorbed) == 0
+
+//@ func (*HashDrbg).Int63(drbg) (ret)
+//@   serves C12
+//@   requires drbgInv(drbg)
+//@   modifies drbg.sip.absorbed, drbg.ofb
+//@   ensures [C12:int63_is_masked_block] ret == unbe(seq(drbg.ofb)) % 9223372036854775808 && 0 <= ret
+//@   ensures drbgInv(drbg)
